@@ -72,7 +72,7 @@ class StmtMixin:
     else:
       raise Unsupported('augassign target')
     rhs = self.ev(node.value, env)
-    if isinstance(cur, (VList, VMList)) and isinstance(node.op, ast.Add):
+    if isinstance(cur, (VList, VMList)) and isinstance(node.op, ast.Add) and not isinstance(rhs, VVec):
       self.list_extend(cur, rhs)      # in-place +=
       return
     new = self.binop(node.op, cur, rhs)
@@ -292,8 +292,15 @@ class StmtMixin:
       names |= set(spec.get('havoc', ()))
       attrs |= set(spec.get('havoc_attrs', ()))
       mutated |= set(spec.get('havoc_objs', ()))
+    retype = (spec or {}).get('retype', {})
     for nme in sorted(names):
-      if nme in env:
+      if nme in retype:
+        env[nme] = self.fresh(retype[nme], f'{nme}@loop')
+      elif nme in env:
+        v = env[nme]
+        if isinstance(v, VList) and v.items and all(isinstance(x, VList) for x in v.items):
+          for x in v.items:       # a list of buffers that the loop grows
+            self.promote_list(x, track_cat=True)
         env[nme] = self.fresh_like(env[nme], f'{nme}@loop')
     # attribute writes: havoc that field on every heap object reachable from env
     if attrs or (spec and spec.get('calls_modify')):
@@ -321,16 +328,38 @@ class StmtMixin:
     if self.yield_log is not None:
       self.havoc_in_place(self.yield_log, 'out@loop')
 
-  def promote_list(self, lst):
-    """A concrete-length list that a loop mutates becomes a symbolic-length list (same identity)."""
+  def promote_list(self, lst, track_cat=False):
+    """A concrete-length list that a loop mutates becomes a symbolic-length list (same identity).
+    With track_cat the list of chunks carries a ghost `cat`: the concatenation of its chunks."""
     arr = z3.K(z3.IntSort(), self.to_obj(NONE))
-    for i, x in enumerate(lst.items):
+    items = list(lst.items)
+    for i, x in enumerate(items):
       arr = z3.Store(arr, i, self.to_obj(x))
-    n = len(lst.items)
+    n = len(items)
     del lst.items
     lst.__class__ = VMList
     lst.seq = VSeq(arr, z3.IntVal(n), 'obj')
     lst.is_deque = False
+    if track_cat:
+      lst.cat = self.empty_cat()
+      for x in items:
+        lst.cat = self.cat_append(lst.cat, x)
+
+  def empty_cat(self):
+    t = z3.Const(self.path.fresh_name('cat0'), Obj)
+    self.assume(len_of(t) == 0)
+    return VOpaque(t)
+
+  def cat_append(self, cat, x):
+    """ghost concatenation cat ++ x (x a sized opaque chunk): lengths add, items are kept in order."""
+    xt = self.to_obj(x)
+    t = z3.Const(self.path.fresh_name('cat'), Obj)
+    j = z3.Int(self.path.fresh_name('j'))
+    n0 = len_of(cat.t)
+    self.assume(len_of(t) == n0 + len_of(xt))
+    self.assume(z3.ForAll([j], z3.Implies(z3.And(0 <= j, j < n0), item_of(t, j) == item_of(cat.t, j))))
+    self.assume(z3.ForAll([j], z3.Implies(z3.And(0 <= j, j < len_of(xt)), item_of(t, n0 + j) == item_of(xt, j))))
+    return VOpaque(t)
 
   def _havoc_attrs(self, v, attrs, seen):
     if isinstance(v, VOpt):
@@ -431,7 +460,54 @@ class StmtMixin:
     if isinstance(it, (VSeq, VMList)):
       s = it.seq if isinstance(it, VMList) else it
       return self.for_range(node, env, VRange(z3.IntVal(0), s.n), spec, ordinal, seq=s)
+    if isinstance(it, VZip):
+      return self.for_zip(node, env, it, spec, ordinal)
     raise Unsupported(f'for over {type(it).__name__}')
+
+  def for_zip(self, node, env, zp, spec, ordinal):
+    """for x in zip(it_0, ..., it_k, strict=True) over fresh iterators (pos 0): the element of round t
+    is the tuple of the t-th elements; with strict unequal lengths raise ValueError at the end."""
+    if not isinstance(node.target, ast.Name):
+      raise Unsupported('for-zip target')
+    if not zp.its:
+      self.exec_block(node.orelse, env)
+      return
+    var = f'idx_{node.target.id}'
+    n0 = zp.its[0].src.n
+    env[var] = VInt(0)
+    self.check_invariants(spec, env, ordinal, 'entry')
+    self.havoc_loop(node, env, spec, extra_names=[var])
+    self.path.cut_loops += 1
+    i = self.to_int(env[var])
+    self.assume(i >= 0)
+    shortest = n0
+    for it_ in zp.its[1:]:
+      shortest = z3.If(it_.src.n < shortest, it_.src.n, shortest)
+    self.assume(i <= shortest)
+    for inv in spec.get('invariant', ()):
+      self.assume(self.spec(inv, env, self.entry_old))
+    if self.branch(i < shortest):
+      elems = []
+      for it_ in zp.its:
+        ev_ = self.wrap(it_.src.kind, z3.Select(it_.src.arr, i))
+        if it_.on_elem is not None:
+          it_.on_elem(i, ev_)
+        elems.append(ev_)
+      env[node.target.id] = VTuple(elems)
+      try:
+        self.exec_block(node.body, env)
+      except BreakSig:
+        return
+      except ContinueSig:
+        pass
+      env[var] = VInt(i + 1)
+      self.check_invariants(spec, env, ordinal, 'preserved')
+      raise PathEnd()
+    if zp.strict:
+      same = z3.And([it_.src.n == n0 for it_ in zp.its[1:]] or [z3.BoolVal(True)])
+      if self.branch(z3.Not(same)):
+        self.raise_('ValueError', VStr('zip() arguments have different lengths'))
+    self.exec_block(node.orelse, env)
 
   def for_range(self, node, env, rng, spec, ordinal, seq=None):
     """for x in range(lo, hi): cut at the invariant; in invariants the loop
